@@ -11,10 +11,10 @@ use std::time::Duration;
 const D15: &str = "D15: rmcp 0.11 sends no response at all to a request with an unknown method or to tools/call without params, and the server exits (status 0) on an input line that is not JSON";
 const D9: &str = "D9: a calculation that overflows rust_decimal panics inside the request handler and that request is never answered (the server keeps answering others)";
 
-struct Session { responses: Vec<Value>, exit_ok: bool, timed_out: bool }
+pub struct Session { pub responses: Vec<Value>, pub exit_ok: bool, pub timed_out: bool }
 
 /// run one session: handshake, then `reqs` (each a JSON-RPC request with an id), pipelined or one at a time
-fn session(reqs: &[Value], pipelined: bool) -> Session {
+pub fn session(reqs: &[Value], pipelined: bool) -> Session {
     let mut child = Command::new(cli::bin()).arg("mcp").stdin(Stdio::piped()).stdout(Stdio::piped()).stderr(Stdio::null()).spawn().expect("start cgt-tool mcp");
     let mut stdin = child.stdin.take().expect("stdin");
     let stdout = child.stdout.take().expect("stdout");
@@ -53,7 +53,7 @@ fn session(reqs: &[Value], pipelined: bool) -> Session {
     Session { responses, exit_ok, timed_out }
 }
 
-fn call(id: u64, tool: &str, args: Value) -> Value { json!({"jsonrpc":"2.0","id":id,"method":"tools/call","params":{"name":tool,"arguments":args}}) }
+pub fn call(id: u64, tool: &str, args: Value) -> Value { json!({"jsonrpc":"2.0","id":id,"method":"tools/call","params":{"name":tool,"arguments":args}}) }
 
 fn result_text(v: &Value) -> Option<String> { v["result"]["content"][0]["text"].as_str().map(|s| s.to_string()) }
 
